@@ -104,7 +104,7 @@ func runOnce(sc Scn, prefix []int) (*vshim.Result, *sched.Exec, error) {
 		seam = dbseam.Wrap(u, dbseam.NoPlan)
 		return seam
 	}
-	w, err := world.New(dir, world.Options{Wrap: wrap})
+	w, err := world.New(dir, world.Options{Wrap: wrap, Gap: 3}) // gap limit 3: an import derives 3+3 addresses instead of 20+20
 	if err != nil {
 		return nil, nil, err
 	}
